@@ -197,8 +197,8 @@ func genCase(r *gen.Rand, i int) caseSpec {
 	}
 	// the command path runs on a late case: the binary is being built in the background since the start of the run
 	cs.CmdPath = i%10 == 6
-	if cs.CmdPath && n < 2 {
-		n = 2
+	if cs.CmdPath && n < 3 {
+		n = 3 // the vacuum step of the command path needs a compound shard with at least two repositories
 	}
 	if i == 1 {
 		n = 4
@@ -226,6 +226,13 @@ func genCase(r *gen.Rand, i int) caseSpec {
 	if many {
 		cs.Class = "many-branches"
 	}
+	if cs.CmdPath {
+		for k := 0; k < 2; k++ {
+			for len(cs.Repos[k].Docs) == 0 {
+				cs.Repos[k].Docs = append(cs.Repos[k].Docs, genDoc(r, 0, cs.Repos[k].Branches, cs.Repos[k].SubRepos))
+			}
+		}
+	}
 	// sometimes pre-merge a group into a compound input and tombstone members
 	if n >= 3 && (r.Chance(1, 3) || i == 1) && !many {
 		cs.Compound = [][]int{{0, 1, 2}}
@@ -245,6 +252,29 @@ func genCase(r *gen.Rand, i int) caseSpec {
 			}
 			cs.Repos[1].Tomb, cs.Repos[0].Tomb = true, false
 			cs.Repos[0].FileTombs = []string{cs.Repos[0].Docs[0].Name}
+		}
+		// where the tombstoned repository sits inside the compound shard matters to anything that looks at
+		// repoMetaData[0] only (the priority of the input, "is this shard dead?"): every run (case 1) and half of the
+		// random compound inputs tombstone the repository that is stored FIRST (highest priority) and keep a later one
+		if i == 1 || r.Bool() {
+			first := -1
+			for _, k := range []int{1, 0, 2} {
+				if len(cs.Repos[k].Docs) > 0 && (i != 1 || k == 1) {
+					first = k
+					break
+				}
+			}
+			live := -1
+			for _, k := range []int{0, 2, 1} {
+				if k != first && len(cs.Repos[k].Docs) > 0 {
+					live = k
+					break
+				}
+			}
+			if first >= 0 && live >= 0 {
+				cs.Repos[first].Prio, cs.Repos[first].Tomb = 9, true
+				cs.Repos[live].Tomb = false
+			}
 		}
 	}
 	// the order of the inputs on the call: merge must not depend on it (beyond ties in priority)
@@ -570,7 +600,8 @@ func viewOf(fm zoekt.FileMatch) fileView {
 	return v
 }
 
-func searchAll(ss []zoekt.Searcher, q query.Q) ([]string, error) {
+// skip: results of this repository are left out (the expectation after it has been tombstoned); "" = none
+func searchAll(ss []zoekt.Searcher, q query.Q, skip string) ([]string, error) {
 	var out []string
 	for _, s := range ss {
 		res, err := s.Search(context.Background(), q, &zoekt.SearchOptions{Whole: true, ChunkMatches: true})
@@ -578,6 +609,9 @@ func searchAll(ss []zoekt.Searcher, q query.Q) ([]string, error) {
 			return nil, err
 		}
 		for _, f := range res.Files {
+			if skip != "" && f.Repository == skip {
+				continue
+			}
 			b, _ := json.Marshal(viewOf(f))
 			out = append(out, string(b))
 		}
@@ -595,7 +629,7 @@ type repoView struct {
 	NLo   uint64
 }
 
-func listAll(ss []zoekt.Searcher) ([]string, error) {
+func listAll(ss []zoekt.Searcher, skip string) ([]string, error) {
 	var out []string
 	for _, s := range ss {
 		rl, err := s.List(context.Background(), &query.Const{Value: true}, nil)
@@ -603,7 +637,7 @@ func listAll(ss []zoekt.Searcher) ([]string, error) {
 			return nil, err
 		}
 		for _, e := range rl.Repos {
-			if e.Stats.Documents == 0 {
+			if e.Stats.Documents == 0 || (skip != "" && e.Repository.Name == skip) {
 				continue // repositories without documents are outside the property
 			}
 			b, _ := json.Marshal(repoView{e.Repository, e.Stats.Documents, e.Stats.ContentBytes, e.Stats.NewLinesCount,
@@ -691,7 +725,11 @@ func clip(s string) string {
 }
 
 // compare searches and List over two shard sets
-func e2e(cs caseSpec, before, after []string) (msg string, key string) {
+func e2e(cs caseSpec, before, after []string, tombstoned ...string) (msg string, key string) {
+	skip := ""
+	if len(tombstoned) > 0 {
+		skip = tombstoned[0] // a repository tombstoned since `before` was written: expected to be gone afterwards
+	}
 	// a search over a corrupted output shard may panic inside the searcher: that is a finding, not a harness failure
 	defer func() {
 		if r := recover(); r != nil {
@@ -727,8 +765,8 @@ func e2e(cs caseSpec, before, after []string) (msg string, key string) {
 			s.Close()
 		}
 	}()
-	lb, err1 := listAll(bs)
-	la, err2 := listAll(as)
+	lb, err1 := listAll(bs, skip)
+	la, err2 := listAll(as, "")
 	if err1 != nil || err2 != nil {
 		return fmt.Sprintf("List failed: %v %v", err1, err2), "e2e-list"
 	}
@@ -736,8 +774,8 @@ func e2e(cs caseSpec, before, after []string) (msg string, key string) {
 		return "List: " + d, "e2e-list"
 	}
 	for _, q := range queries(cs) {
-		rb, err1 := searchAll(bs, q)
-		ra, err2 := searchAll(as, q)
+		rb, err1 := searchAll(bs, q, skip)
+		ra, err2 := searchAll(as, q, "")
 		if err1 != nil || err2 != nil {
 			return fmt.Sprintf("Search %s failed: %v %v", q, err1, err2), "e2e-search"
 		}
@@ -912,7 +950,7 @@ func runCase(work string, cs caseSpec, id int) ([]gen.Case, error) {
 	if cs.CmdPath {
 		t0 := time.Now()
 		out = append(out, cmdCases(cs, inputs, filepath.Join(dir, "cmd"), detail)...)
-		fmt.Fprintf(os.Stderr, "c16: command path (build + merge, re-merge, explode): %v\n", time.Since(t0).Round(time.Millisecond))
+		fmt.Fprintf(os.Stderr, "c16: command path (build + merge, re-merge, tombstone + vacuum, explode): %v\n", time.Since(t0).Round(time.Millisecond))
 	}
 	return out, nil
 }
@@ -995,9 +1033,10 @@ func cmdCases(cs caseSpec, inputs []string, dir string, detail json.RawMessage) 
 		err := cmd.Run()
 		return strings.TrimSpace(so.String()), se.String(), err
 	}
+	dead := ""
 	compare := func(step string) gen.Case {
 		after := zoektFiles(idx)
-		if g, k := e2e(cs, before, after); g != "" {
+		if g, k := e2e(cs, before, after, dead); g != "" {
 			return mk(step, fmt.Sprintf("%s (index directory now holds %d shard file(s))", g, len(after)), k)
 		}
 		ents, _ := os.ReadDir(idx)
@@ -1060,6 +1099,29 @@ func cmdCases(cs caseSpec, inputs []string, dir string, detail json.RawMessage) 
 		if printed2 == prev {
 			break
 		}
+	}
+	// vacuum (indexserver's removeTombstones): tombstone the repository stored FIRST in the compound shard and merge the
+	// compound shard with itself; every other repository must survive, the tombstoned one must be gone
+	if repos, _, rerr := index.ReadMetadataPath(printed2); rerr == nil && len(repos) >= 2 {
+		if err := index.SetTombstone(printed2, repos[0].ID); err != nil {
+			return append(out, mk("vacuum-setup", err.Error(), "tombstone"))
+		}
+		dead = repos[0].Name
+		out = append(out, compare("tombstone-first"))
+		printed3, stderr, err := run("merge", printed2)
+		if err != nil {
+			c := compare("vacuum-failed")
+			if c.Go == "" {
+				c.Go, c.Key = "zoekt-merge-index merge <compound with tombstone> failed: "+clip(stderr), "cmd-vacuum-error"
+			}
+			return append(out, c)
+		}
+		c := compare("vacuum")
+		out = append(out, c)
+		if c.Go != "" {
+			return out
+		}
+		printed2 = printed3
 	}
 	// explode
 	if _, stderr, err := run("explode", printed2); err != nil {
@@ -1172,6 +1234,26 @@ func main() {
 			w.Emit(c)
 		}
 		// distribution of what the generated inputs exercise
+		for _, g := range cs.Compound {
+			// the member stored first: highest priority among those with documents (ties keep the input order)
+			first, others := -1, false
+			for _, k := range g {
+				if len(cs.Repos[k].Docs) == 0 {
+					continue
+				}
+				if first < 0 || cs.Repos[k].Prio > cs.Repos[first].Prio {
+					first = k
+				}
+			}
+			for _, k := range g {
+				if k != first && len(cs.Repos[k].Docs) > 0 && !cs.Repos[k].Tomb {
+					others = true
+				}
+			}
+			if first >= 0 && cs.Repos[first].Tomb && others {
+				w.Count("compound-inputs-whose-first-repository-is-tombstoned-and-a-later-one-is-live", 1)
+			}
+		}
 		pos := map[string]int{}
 		shared := false
 		for _, rs := range cs.Repos {
